@@ -58,7 +58,7 @@ Qed.
 Lemma op_recv_internal_before_fix :
   exists k c w, is_internal (fst (op_recv false k c w)) = true.
 Proof.
-  exists 0%nat, (mkCfg true true 1 1011),
+  exists 0%nat, (mkCfg true true 1 1011 KExact),
          (mkWs Accepted None [CText 5] None None false [] [] [] false). reflexivity.
 Qed.
 
@@ -89,28 +89,28 @@ Proof.
         destruct (do_send_shape e w0) as [[w' ->]|[[z [w' ->]]|[[w' ->]|[w' ->]]]]; reflexivity
       end.
   - (* send_text *)
-    unfold run_op, op_send_text, op_send, require_accepted, pub_of, misuse_ok.
+    unfold run_op, op_send_text, op_send, require_accepted, pub_of, misuse_ok, payload_bad.
+    destruct (st w) eqn:Est; cbn; try reflexivity.
+    + destruct (is_closed w) eqn:Ec.
+      * destruct p; [|reflexivity]. destruct (strish k); cbn; [|reflexivity].
+        destruct (do_send_closed (EText n k) w Ec) as [z [w' ->]]; [congruence|reflexivity].
+      * destruct p; [|reflexivity]. destruct (strish k); cbn; [|reflexivity].
+        destruct (do_send_shape (EText n k) w) as [[w' ->]|[[z [w' ->]]|[[w' ->]|[w' ->]]]]; reflexivity.
+    + unfold is_closed. rewrite Est. destruct p; [destruct (strish k)|]; reflexivity.
+  - unfold run_op, op_send_data, op_send, require_accepted, pub_of, misuse_ok, payload_bad.
     destruct (st w) eqn:Est; cbn; try reflexivity.
     + destruct (is_closed w) eqn:Ec.
       * destruct p; [|reflexivity].
-        destruct (do_send_closed (EText n) w Ec) as [z [w' ->]]; [congruence|reflexivity].
+        destruct (do_send_closed (EBytes n KExact) w Ec) as [z [w' ->]]; [congruence|reflexivity].
       * destruct p; [|reflexivity].
-        destruct (do_send_shape (EText n) w) as [[w' ->]|[[z [w' ->]]|[[w' ->]|[w' ->]]]]; reflexivity.
-    + unfold is_closed. rewrite Est. destruct p; reflexivity.
-  - unfold run_op, op_send_data, op_send, require_accepted, pub_of, misuse_ok.
-    destruct (st w) eqn:Est; cbn; try reflexivity.
-    + destruct (is_closed w) eqn:Ec.
-      * destruct p; [|reflexivity].
-        destruct (do_send_closed (EBytes n) w Ec) as [z [w' ->]]; [congruence|reflexivity].
-      * destruct p; [|reflexivity].
-        destruct (do_send_shape (EBytes n) w) as [[w' ->]|[[z [w' ->]]|[[w' ->]|[w' ->]]]]; reflexivity.
+        destruct (do_send_shape (EBytes n KExact) w) as [[w' ->]|[[z [w' ->]]|[[w' ->]|[w' ->]]]]; reflexivity.
     + unfold is_closed. rewrite Est. destruct p; reflexivity.
   - unfold run_op, op_send_media, op_send, require_accepted, pub_of, misuse_ok.
     destruct (st w) eqn:Est; cbn; try reflexivity.
     + destruct (is_closed w) eqn:Ec.
-      * destruct (do_send_closed (if bin then EBytes n else EText n) w Ec) as [z [w' ->]];
+      * destruct (do_send_closed (if bin then EBytes n KExact else EText n KExact) w Ec) as [z [w' ->]];
           [congruence|reflexivity].
-      * destruct (do_send_shape (if bin then EBytes n else EText n) w)
+      * destruct (do_send_shape (if bin then EBytes n KExact else EText n KExact) w)
           as [[w' ->]|[[z [w' ->]]|[[w' ->]|[w' ->]]]]; reflexivity.
     + unfold is_closed. rewrite Est. reflexivity.
   - destruct (op_recv_table 0 c w) as [A B]. unfold run_op, misuse_ok, pub_of. rewrite A. cbn.
@@ -127,18 +127,16 @@ Qed.
 Lemma misuse_table_refuted_before_fix :
   exists c w o, wf w /\ misuse_ok c (pub_of w) o (fst (run_op false (fun _ => false) c o w)) = false.
 Proof.
-  exists (mkCfg true true 1 1011),
+  exists (mkCfg true true 1 1011 KExact),
          (mkWs Accepted None [CText 5] None None false [] [] [] false), ORecvText.
   split; [discriminate | reflexivity].
 Qed.
 
 (* ---- accept headers / close reasons only for servers that support them *)
-Definition okev (c : cfg) (a : event * sfail) : bool :=
-  match fst a with
-  | EAccept _ true => hdrs_ok c
-  | EClose _ true => reason_ok c
-  | _ => true
-  end.
+Definition okev (c : cfg) (a : event * sfail) : bool := event_ok c (fst a).
+
+(* the binary media handler's result is copied (repaired code), or is exact bytes anyway *)
+Definition mk_ok (f : bool) (c : cfg) : Prop := f = true \/ media_kind c = KExact.
 
 Definition ext (c : cfg) (w w' : ws) : Prop :=
   exists l, trace w' = trace w ++ l /\ forallb (okev c) l = true.
@@ -193,9 +191,9 @@ Proof.
     all: try (eapply ext_trans; [exact E1|]; apply ext_same; reflexivity).
 Qed.
 
-Lemma run_op_ext f hr c o w r w' : run_op f hr c o w = (r, w') -> ext c w w'.
+Lemma run_op_ext f hr c o w r w' : mk_ok f c -> run_op f hr c o w = (r, w') -> ext c w w'.
 Proof.
-  destruct o; cbn; intro H.
+  intro Hmk. destruct o; cbn; intro H.
   - unfold op_accept in H.
     destruct (is_closed w); [injection H as <- <-; apply ext_refl|].
     destruct (st w); try (injection H as <- <-; apply ext_refl).
@@ -212,18 +210,21 @@ Proof.
          end.
   - eapply op_close_ext; eauto.
   - unfold op_send_text in H. destruct (require_accepted w); [injection H as <- <-; apply ext_refl|].
-    destruct p; [|injection H as <- <-; apply ext_refl]. unfold op_send in H.
+    destruct p; [|injection H as <- <-; apply ext_refl].
+    destruct (strish k) eqn:Ek; [|injection H as <- <-; apply ext_refl]. unfold op_send in H.
     destruct (do_send _ w) as [x w1] eqn:Ed.
-    assert (Ho : okev c (EText n, SOk) = true) by reflexivity.
+    assert (Ho : okev c (EText n k, SOk) = true) by exact Ek.
     pose proof (do_send_ext _ _ _ _ _ Ho Ed). destruct x; injection H as <- <-; assumption.
   - unfold op_send_data in H. destruct (require_accepted w); [injection H as <- <-; apply ext_refl|].
     destruct p; [|injection H as <- <-; apply ext_refl]. unfold op_send in H.
     destruct (do_send _ w) as [x w1] eqn:Ed.
-    assert (Ho : okev c (EBytes n, SOk) = true) by reflexivity.
+    assert (Ho : okev c (EBytes n KExact, SOk) = true) by reflexivity.
     pose proof (do_send_ext _ _ _ _ _ Ho Ed). destruct x; injection H as <- <-; assumption.
   - unfold op_send_media in H. destruct (require_accepted w); [injection H as <- <-; apply ext_refl|].
     unfold op_send in H. destruct (do_send _ w) as [x w1] eqn:Ed.
-    assert (Ho : okev c (if bin then EBytes n else EText n, SOk) = true) by (destruct bin; reflexivity).
+    assert (Ho : okev c (if bin then EBytes n (if f then KExact else media_kind c) else EText n KExact, SOk) = true).
+    { destruct bin; [|reflexivity]. destruct Hmk as [-> | Hk]; [reflexivity|].
+      rewrite Hk. destruct f; reflexivity. }
     pose proof (do_send_ext _ _ _ _ _ Ho Ed). destruct x; injection H as <- <-; assumption.
   - apply ext_same. eapply op_recv_trace; eauto.
   - apply ext_same. eapply op_recv_trace; eauto.
@@ -232,11 +233,12 @@ Proof.
   - injection H as <- <-. apply ext_same. apply advance_trace.
 Qed.
 
-Lemma run_script_ext f hr c sc : forall w rs e w', run_script f hr c sc w = (rs, e, w') -> ext c w w'.
+Lemma run_script_ext f hr c sc : mk_ok f c -> forall w rs e w', run_script f hr c sc w = (rs, e, w') -> ext c w w'.
 Proof.
+  intro Hmk.
   induction sc as [|[o catch] tl IH]; intros w rs e w' Hs; cbn in Hs.
   - injection Hs as <- <- <-. apply ext_refl.
-  - destruct (run_op f hr c o w) as [r w1] eqn:Eo. pose proof (run_op_ext _ _ _ _ _ _ _ Eo) as E1.
+  - destruct (run_op f hr c o w) as [r w1] eqn:Eo. pose proof (run_op_ext _ _ _ _ _ _ _ Hmk Eo) as E1.
     destruct r.
     + destruct (run_script f hr c tl w1) as [[rs2 e2] w2] eqn:Er. injection Hs as <- <- <-.
       eapply ext_trans; eauto.
@@ -265,9 +267,10 @@ Proof.
 Qed.
 
 Theorem features_session f hr c cok mw rt cl fl rs e w :
+  mk_ok f c ->
   session f hr c cok mw rt cl fl = (rs, e, w) -> features_ok c (trace w) = true.
 Proof.
-  intro Hs.
+  intros Hmk Hs.
   assert (X : ext c (ws0 cl fl) w).
   { unfold session in Hs. destruct (negb cok).
     - destruct (attempt _ (ws0 cl fl)) as [k w1] eqn:Ea.
@@ -275,7 +278,7 @@ Proof.
         by (unfold okev; cbn; destruct (reason_ok c); reflexivity).
       pose proof (attempt_ext _ _ _ _ _ Ho Ea). injection Hs as <- <- <-. assumption.
     - destruct (run_script f hr c mw (ws0 cl fl)) as [[rs1 e1] w1] eqn:E1.
-      pose proof (run_script_ext _ _ _ _ _ _ _ _ E1) as X1.
+      pose proof (run_script_ext _ _ _ _ Hmk _ _ _ _ E1) as X1.
       assert (TAIL : forall (rs0 : list result) e2 w2, ext c (ws0 cl fl) w2 ->
                 match e2 with
                 | Returned =>
@@ -300,7 +303,7 @@ Proof.
       destruct e1.
       + destruct rt as [sc| |].
         * destruct (run_script f hr c sc w1) as [[rs2 e2] w2] eqn:E2.
-          pose proof (run_script_ext _ _ _ _ _ _ _ _ E2) as X2.
+          pose proof (run_script_ext _ _ _ _ Hmk _ _ _ _ E2) as X2.
           eapply (TAIL (rs1 ++ rs2) e2 w2); [eapply ext_trans; eauto | exact Hs].
         * eapply (TAIL rs1 (Raised (XHTTPError 404)) w1); [exact X1 | exact Hs].
         * eapply (TAIL rs1 (Raised (XHTTPError 405)) w1); [exact X1 | exact Hs].
@@ -426,7 +429,7 @@ Proof.
            destruct x; injection H as <- <-; exact S1
          end.
   - unfold op_send_text, op_send in H. destruct (require_accepted w); [injection H as <- <-; reflexivity|].
-    destruct p; [|injection H as <- <-; reflexivity].
+    destruct p; [|injection H as <- <-; reflexivity]. destruct (strish k); [|injection H as <- <-; reflexivity].
     destruct (do_send _ w) as [x w1] eqn:Ed. pose proof (DS _ _ _ _ Ed). destruct x; injection H as <- <-; assumption.
   - unfold op_send_data, op_send in H. destruct (require_accepted w); [injection H as <- <-; reflexivity|].
     destruct p; [|injection H as <- <-; reflexivity].
@@ -503,8 +506,21 @@ Lemma close_retry_refuted_before_fix :
         session_ok (trace w) e (handed w) = true
         /\ closes w = [EAccept None false; EClose 1000 true]).
 Proof.
-  exists (fun _ => true), (mkCfg true true 1 1011), [],
+  exists (fun _ => true), (mkCfg true true 1 1011 KExact), [],
          (Routed [(OAccept SubNone HNone, false)]), [CDisc (Some 1001)], [SOk; SOSError None].
   split; [constructor|]. split; [repeat constructor|].
   Transparent mon_run. split; vm_compute; auto. Opaque mon_run.
+Qed.
+
+(* the code as found puts the binary media handler's result into the event as is: with a
+   handler that returns a bytearray (allowed by its documented contract) the event is not a
+   legal ASGI event and aliases the handler's buffer *)
+Lemma send_media_refuted_before_fix :
+  exists hr c mw rt cl fl,
+    (let '(rs, e, w) := session false hr c true mw rt cl fl in features_ok c (trace w) = false)
+    /\ (let '(rs, e, w) := session true hr c true mw rt cl fl in features_ok c (trace w) = true).
+Proof.
+  exists (fun _ => true), (mkCfg true true 1 1011 KArray), [],
+         (Routed [(OAccept SubNone HNone, false); (OSendMedia true 7, false)]), [CDisc None], [].
+  split; vm_compute; reflexivity.
 Qed.
